@@ -170,9 +170,13 @@ def check(rep, tier):
     for (how, pool) in combos:
         for var in (True, False):
             cfg = base_cfg(rng, var)
+            while how == "sync" and cfg["shape"][2] > 1:
+                cfg = base_cfg(rng, var)          # the parallel-write mode is always exercised (flat shelf)
             if cfg["shape"][2] > 1:
                 continue
             Nrep = rng.randint(1, 12) if tier != "quick" else rng.choice([1, 4, 7])
+            if how == "sync":
+                Nrep = max(Nrep, 4)               # several workers writing into the shared result dict (reverse order, impl.adversarial_pool)
             try:
                 with impl.quiet():
                     SF = sfall.Snowfall(Nrep=Nrep, pool_size=pool, k=dict(cfg["k"]), N_vials=cfg["shape"], dt=cfg["dt"], seed_v=cfg["seed_v"],
